@@ -81,11 +81,15 @@ Definition cell_eqb (a b : @cell pelem) : bool :=
 Definition heap_render (removed : list notif) (ts : Z) : list notif * bool :=
   let '(h, srcs) := heap_srcs removed [] [] in
   let '(h', os) := build_deletes (to_delete_fixed go_extra) h srcs in
-  (map (fun dp => let '(d, o) := dp in
+  (map (fun dp => let '(d, (src, o)) := dp in
                   if elem_branch d
                   then mk_delete d ts (GPath "" "" (map cell_elem (sread h' o)) [])
+                  else if n_atomic d
+                  then (* to_delete_atomic: the stored prefix slice itself, read at the end *)
+                       mk_delete d ts (GPath "" "" (map cell_elem (sread h' (d_pfx src)))
+                                             (gp_element (gp_of_opt (n_prefix d))))
                   else mk_delete d ts (del_path d))
-       (combine removed os),
+       (combine removed (combine srcs os)),
    negb (list_eqb (list_eqb cell_eqb) h (firstn (List.length h) h'))).
 
 Fixpoint heap_feed_matches (gs : list fgroup) (feed : list notif) : bool :=
